@@ -226,7 +226,17 @@ def evaluate(case):
             vs.append(verdict("routing-table", f"C20/route/{c['kind']}->{routed}", label))
         return Result(vs, True, ["route"], {"routed": routed})
     side = "SOURCE" if ctx.startswith("src:") else "DEST"
-    h = _sender_in(c, ctx) if side == "SOURCE" else _receiver_in(c, ctx)
+    try:
+        h = _sender_in(c, ctx) if side == "SOURCE" else _receiver_in(c, ctx)
+    except Exception as e:  # noqa: BLE001
+        # bringing the handler to the step uses only its own side's PDUs of a nominal transfer: if one of those is
+        # refused as foreign, or the routing helper itself fails on it, that is the property failing, not the harness
+        import traceback
+
+        via_router = any(fr.filename.replace("\\", "/").endswith("cfdppy/handler/common.py") for fr in traceback.extract_tb(e.__traceback__))
+        if isinstance(e, (InvalidPduForDestHandler, InvalidPduForSourceHandler)) or via_router:
+            return Result([verdict("routed-not-refused-as-foreign", f"C20/own-pdu-refused-in-nominal-transfer/{side}/{type(e).__name__}", f"{label} ctx={ctx}: {e!r}")], True, ["setup-refused"])
+        raise
     if h is None:
         return Result([], False, ["step-not-applicable"])
     before = _snap(h)
